@@ -137,7 +137,8 @@ Fixpoint select {A} (l : list A) (keep : list bool) : list A :=
 
 (** Spec on the constructor path, given only inputs and observations.
     1. whatever [member_accepted] describes must be accepted;
-    2. a successful New holds the last member per key, at most 180 members, a
+    2. New fails only for a baggage that is not header-expressible, has more than 180 members
+       or needs more than 8192 bytes; a successful New holds the last member per key, at most 180 members, a
        header of at most 8192 bytes (and list-members of at most 4096: clause
        [round_member_limit], known finding 1);
     3. if moreover all stored members are header-expressible and the header is
@@ -147,7 +148,11 @@ Definition round_spec (ms : list member) (acc : list bool) (nb : option (list me
   Nat.eqb (length acc) (length ms) &&
   forallb (fun x => implb (member_accepted (fst x)) (snd x)) (combine ms acc) &&
   match nb with
-  | None => true
+  | None =>
+      (* New may refuse only what is not header-expressible, too many members, or too large a header *)
+      let given := dedup_last (select ms acc) in
+      negb (forallb member_accepted given && (blen given <=? LIMIT_MEMBERS) &&
+            (header_len given <=? LIMIT_TOTAL_BYTES))
   | Some b =>
       let given := select ms acc in
       map_eqb b (dedup_last given) && (blen b <=? LIMIT_MEMBERS) &&
